@@ -197,6 +197,206 @@ def build(race=False):
     return binp
 
 
+TIERS = {
+    # per-property wall budgets in seconds: (quick, thorough)
+    "default": (45, 600),
+}
+
+RACE_CHECKS = {"C07"}
+
+
+def known_path():
+    return os.path.join(VERIF, "known_findings.json")
+
+
+def load_manifest_checks():
+    try:
+        m = json.load(open(os.path.join(VERIF, "MANIFEST.json")))
+        return {c["property_id"]: c for c in m.get("checks", [])}
+    except Exception:
+        return {}
+
+
+LEVELS = {}
+
+
+def run_check(prop, tier, seed):
+    t0 = time.time()
+    race = prop in RACE_CHECKS
+    binp = build(race=race)
+    budget = TIERS.get(prop, TIERS["default"])[0 if tier == "quick" else 1]
+    budget = int(os.environ.get("VERIF_BUDGET_S", budget))
+    outdir = tempfile.mkdtemp(prefix="kevosim-out.", dir=scratch_root())
+    replaydir = os.path.join(VERIF, "replays")
+    os.makedirs(replaydir, exist_ok=True)
+    for old in glob.glob(os.path.join(replaydir, prop + "-*.json")):
+        os.remove(old)  # replays of earlier runs of this check are stale
+    procs = []
+    nworkers = NCPU
+    try:
+        for w in range(nworkers):
+            env = dict(ENV)
+            env.update({
+                "KEVOSIM_CHECK": prop, "KEVOSIM_TIER": tier, "KEVOSIM_SEED": str(seed),
+                "KEVOSIM_WORKER": str(w), "KEVOSIM_NWORKERS": str(nworkers),
+                "KEVOSIM_BUDGET_S": str(budget), "KEVOSIM_OUT": os.path.join(outdir, "w%d.json" % w),
+                "KEVOSIM_REPLAYDIR": replaydir, "KEVOSIM_KNOWN": known_path(),
+                "GOMAXPROCS": "2", "GORACE": "halt_on_error=0 log_path=%s" % os.path.join(outdir, "race.w%d" % w),
+            })
+            if os.environ.get("KEVOSIM_MAXCASES"):
+                env["KEVOSIM_MAXCASES"] = os.environ["KEVOSIM_MAXCASES"]
+            logf = open(os.path.join(outdir, "w%d.log" % w), "wb")
+            cmd = [binp, "-test.run", "^Test%s$" % prop, "-test.timeout", "%ds" % (budget * 4 + 600), "-test.cpu", "1"]
+            p = subprocess.Popen(cmd, env=env, stdout=subprocess.DEVNULL, stderr=logf, cwd=outdir,
+                                 preexec_fn=lambda: __import__("resource").setrlimit(__import__("resource").RLIMIT_AS, (24 << 30, 24 << 30)))
+            procs.append((w, p, logf))
+        results, crashed = [], []
+        for w, p, logf in procs:
+            try:
+                rc = p.wait(timeout=budget * 4 + 900)
+            except subprocess.TimeoutExpired:
+                p.kill()
+                rc = -9
+            logf.close()
+            rp = os.path.join(outdir, "w%d.json" % w)
+            if os.path.exists(rp):
+                try:
+                    results.append(json.load(open(rp)))
+                except Exception as e:
+                    crashed.append((w, rc, "bad result file: %s" % e))
+            else:
+                tail = open(os.path.join(outdir, "w%d.log" % w), "rb").read()[-3000:].decode("utf8", "replace")
+                crashed.append((w, rc, tail))
+        return finish(prop, tier, seed, results, crashed, outdir, time.time() - t0)
+    finally:
+        for _, p, _ in procs:
+            if p.poll() is None:
+                p.kill()
+        shutil.rmtree(outdir, ignore_errors=True)
+
+
+def finish(prop, tier, seed, results, crashed, outdir, wall):
+    if crashed and not results:
+        sys.stderr.write(crashed[0][2] + "\n")
+        infra("all %d workers died without a result (rc=%s)" % (len(crashed), crashed[0][1]))
+    agg = {"cases": 0, "evals": 0, "truncated": 0, "inconclusive": 0, "steps": 0, "sim_time_ns": 0}
+    faults, probes, samples, viol, detmis = {}, {}, [], {}, []
+    hashes = set()
+    rule = ""
+    for r in results:
+        for k in agg:
+            agg[k] += r.get(k, 0)
+        for k, v in (r.get("faults") or {}).items():
+            faults[k] = faults.get(k, 0) + v
+        for k, v in (r.get("probes") or {}).items():
+            probes[k] = probes.get(k, 0) + v
+        samples += (r.get("samples") or [])[:1]
+        detmis += r.get("determinism_mismatch") or []
+        rule = r.get("rule") or rule
+        hf = r.get("hash_file")
+        if hf and os.path.exists(hf):
+            hashes.update(open(hf).read().split())
+        for v in r.get("violations") or []:
+            cur = viol.get(v["signature"])
+            if cur is None:
+                viol[v["signature"]] = v
+            else:
+                cur["count"] += v["count"]
+                if not cur.get("replay") and v.get("replay"):
+                    cur["replay"] = v["replay"]
+    if crashed:
+        for w, rc, tailtxt in crashed:
+            log("worker %d died rc=%s: %s" % (w, rc, tailtxt[-600:]))
+    new = [v for v in viol.values() if not v.get("known")]
+    knownv = [v for v in viol.values() if v.get("known")]
+    level = LEVELS.get(prop, "exploration")
+    mc = load_manifest_checks().get(prop)
+    if mc:
+        level = mc["level_claimed"]["category"]
+    ev = {
+        "property_id": prop, "tier": tier, "seed": seed, "level": level,
+        "coverage": {
+            "evaluations": agg["evals"], "cases": agg["cases"], "distinct_nontrivial": len(hashes), "rule": rule,
+            "samples": samples[:4], "steps": agg["steps"], "sim_time_s": agg["sim_time_ns"] / 1e9,
+            "runs_per_hour": int(agg["cases"] / max(wall, 1e-9) * 3600), "seeds": agg["cases"],
+            "faults_fired": faults, "probes": probes, "truncated_runs": agg["truncated"], "inconclusive": agg["inconclusive"],
+            "workers": len(results), "workers_died": len(crashed),
+            "known_findings_hit": {v["signature"]: v["count"] for v in knownv},
+            "real_components": REAL, "stubbed_components": STUB,
+        },
+        "assumptions": ASSUME,
+        "wall_s": round(wall, 2), "violations": len(new),
+    }
+    os.makedirs(os.path.join(VERIF, "evidence"), exist_ok=True)
+    with open(os.path.join(VERIF, "evidence", prop + ".json"), "w") as f:
+        json.dump(ev, f, indent=1)
+    zero = [k for k, v in probes.items() if v == 0]
+    print("%s %s seed=%d: %d cases, %d evaluations, %d distinct non-trivial, %.0fs wall, %.1f sim-hours, probes=%s faults=%s" % (
+        prop, tier, seed, agg["cases"], agg["evals"], len(hashes), wall, agg["sim_time_ns"] / 3.6e12, json.dumps(probes), json.dumps(faults)))
+    if detmis:
+        for d in detmis[:5]:
+            print("NONDETERMINISM:", d)
+        infra("determinism self-check failed (%d mismatches)" % len(detmis))
+    for v in knownv:
+        print("KNOWN-FINDING: property=%s %s [%s] (hit %d times)" % (prop, v.get("what") or v["kind"], v["signature"], v["count"]))
+    if crashed and len(crashed) > len(results):
+        infra("%d of %d workers died" % (len(crashed), len(crashed) + len(results)))
+    if new:
+        for v in new:
+            print("VIOLATION property=%s replay=%s" % (prop, v.get("replay") or "none"))
+            print("  signature: %s (x%d)" % (v["signature"], v["count"]))
+            print("  detail: " + v["detail"][:1500].replace("\n", "\n    "))
+        sys.exit(1)
+    if len(hashes) < 2:
+        infra("fewer than 2 distinct non-trivial cases explored")
+    sys.exit(0)
+
+
+REAL = ["pkg/wal", "pkg/memtable", "pkg/sstable (+block, footer, bloom_filter)", "pkg/engine (facade, storage manager, iterators)",
+        "pkg/compaction", "pkg/transaction", "pkg/config", "pkg/stats", "pkg/replication (state machines, batching, serialization)", "pkg/grpc/service handlers"]
+STUB = ["OS files (simos in-memory disk)", "goroutine scheduling choice (simrt baton scheduler)", "clock (testing/synctest fake clock)",
+        "select/map/math-rand randomness (seeded runtime overlay)", "gRPC/HTTP2/TCP transport (simnet)"]
+ASSUME = ["instrumentation by source rewriting preserves kevo's logic (imports, go statements, channel operations only)",
+          "go1.26.8 testing/synctest and the 4-file runtime overlay behave as documented",
+          "crash model PROC: bytes handed to the OS survive process death; POWER-DATA where stated"]
+
+
+def replay(path):
+    rf = json.load(open(path))
+    prop = rf["property"]
+    binp = build(race=prop in RACE_CHECKS)
+    outdir = tempfile.mkdtemp(prefix="kevosim-out.", dir=scratch_root())
+    try:
+        env = dict(ENV)
+        outp = os.path.join(outdir, "replay.json")
+        env.update({"KEVOSIM_CHECK": prop, "KEVOSIM_REPLAY": os.path.abspath(path), "KEVOSIM_OUT": outp, "GOMAXPROCS": "2"})
+        with open(os.path.join(outdir, "log"), "wb") as logf:
+            subprocess.run([binp, "-test.run", "^Test%s$" % prop, "-test.timeout", "30m", "-test.cpu", "1"], env=env,
+                           stdout=subprocess.DEVNULL, stderr=logf, cwd=outdir)
+        if not os.path.exists(outp):
+            sys.stderr.write(open(os.path.join(outdir, "log"), "rb").read()[-3000:].decode("utf8", "replace"))
+            infra("replay produced no result")
+        r = json.load(open(outp))
+        exp, got = r.get("expected"), r.get("got")
+        if "-v" in sys.argv:
+            print("\n".join(r.get("trace") or []))
+        if got and exp and got["signature"] == exp["signature"]:
+            print("VIOLATION property=%s replay=%s" % (prop, path))
+            print("  signature: " + got["signature"])
+            print("  detail: " + got["detail"][:3000])
+            if r["sched_hash_expected"] != r["sched_hash_got"]:
+                print("  note: schedule hash differs from the recorded one (%s vs %s) - tree changed?" % (r["sched_hash_expected"], r["sched_hash_got"]))
+            sys.exit(1)
+        if got:
+            print("REPLAY-DIVERGED: different violation: %s" % got["signature"])
+            print("  detail: " + got["detail"][:2000])
+            sys.exit(3)
+        print("REPLAY-CLEAN: the recorded violation does not occur on this tree (%s)" % exp["signature"])
+        sys.exit(0)
+    finally:
+        shutil.rmtree(outdir, ignore_errors=True)
+
+
 def main():
     if len(sys.argv) < 2:
         print(__doc__)
@@ -205,7 +405,17 @@ def main():
     if cmd == "build":
         print(build(race="--race" in sys.argv))
         return
-    infra("not implemented yet: " + cmd)
+    if cmd == "replay":
+        replay(sys.argv[2])
+        return
+    if cmd == "setup":
+        ensure_tools()
+        build(race=False)
+        print("setup ok")
+        return
+    tier = sys.argv[2] if len(sys.argv) > 2 else os.environ.get("VERIF_TIER", "quick")
+    seed = int(os.environ.get("VERIF_SEED", "1"))
+    run_check(cmd, tier, seed)
 
 
 if __name__ == "__main__":
